@@ -19,6 +19,21 @@ TRUSTED = ['Lean 4.33 kernel', 'axioms: propext, Classical.choice, Quot.sound', 
            'modelled, not verified: numqi/group/spf2.py, numqi/random/_spf2.py (rand_SpF2 = from_int_tuple of a tuple drawn below the bases)']
 
 
+import random as _random
+
+
+class ScriptedRandom(_random.Random):
+    """a `random.Random` (accepted as `seed` by `get_random_rng`) whose `randint` returns prescribed values"""
+    def __init__(self, values):
+        super().__init__(0)
+        self.values = list(values)
+        self.calls = []
+
+    def randint(self, a, b):
+        self.calls.append((a, b))
+        return self.values.pop(0)
+
+
 def vstr(a):
     return ''.join(str(int(x)) for x in np.asarray(a).reshape(-1))
 
@@ -79,6 +94,16 @@ def impl_op(op):
         return guarded(f)
     if k == 'from':
         return guarded(lambda: mstr(sp.from_int_tuple(tuple(int(x) for x in t[3].split(';')))))
+    if k == 'randsp':
+        def f():
+            vals = [int(x) for x in t[3].split(';')]
+            rr = ScriptedRandom(vals)
+            M = numqi.random.rand_SpF2(n, seed=rr)
+            t2 = numqi.random.rand_SpF2(n, return_kind='int_tuple', seed=ScriptedRandom(vals))
+            if rr.calls != [(0, b - 1) for b in bases(n)] or rr.values or tuple(t2) != tuple(vals):
+                return f'draws requested {rr.calls}, tuple returned {t2}'
+            return mstr(M)
+        return guarded(f)
     if k == 'to':
         return guarded(lambda: tstr(sp.to_int_tuple(marr(t[3]))))
     if k == 'inv':
@@ -271,6 +296,14 @@ def gen_ops(ctx):
         if rng.random() < 0.3:
             C[0] = 0
         ops += [f'C09 issp {n} {mstr(C)}', f'C09 to {n} {mstr(C)}', f'C09 inv {n} {mstr(C)}']
+    # rand_SpF2 with scripted raw draws: the post-processing is from_int_tuple of exactly the drawn tuple,
+    # and the draws are requested from [0, base-1]
+    for i in range(80 if quick else 800):
+        n = 1 + i % 8
+        t = rand_tuple(rng, n)
+        if i % 5 == 0:
+            t = tuple(rng.choice([0, b - 1]) for b in bases(n))
+        ops.append(f'C09 randsp {n} {tstr(t)}')
     # rand_SpF2 outputs through to_int_tuple
     for i in range(60 if quick else 600):
         n = 1 + i % 8
